@@ -16,19 +16,36 @@ def run_table_case(spec, prop, checker, inputs=None, post=None, fast_sigma=True)
         if call["pi_method"] == "gaussian" and fast_sigma:
             harness.fast_boot_sigma(p)
         client = None
+        live = None
         if polls >= 2 and inputs is None:
             # election night on ONE client: the same request is repeated while more and more units report; every
             # earlier poll is judged too (a result may not depend on what the client answered before)
             client = harness.client_mod().ModelClient()
-            for feed_t in cases.poll_sequence(spec["seed"], prop, spec["i"], el, feed, status, polls)[:-1]:
-                res_t, exc_t, client = harness.run_estimates(el, feed_t, call, client=client, want_client=True)
+            seq = cases.poll_sequence(spec["seed"], prop, spec["i"], el, feed, status, polls)
+            live = None
+            if spec.get("shared_feed"):
+                # the caller keeps ONE feed frame for the whole night and updates its cells in place between polls
+                # (whatever the library writes into the frame it is handed would be seen by the next poll)
+                live = seq[0].copy(deep=True)
+                out["counters"]["shared_feed_histories"] = 1
+            for feed_t in seq[:-1]:
+                if live is not None:
+                    for c in feed_t.columns:
+                        live[c] = feed_t[c].to_numpy()
+                res_t, exc_t, client = harness.run_estimates(el, live if live is not None else feed_t, call,
+                                                             client=client, want_client=True, own_feed=live is not None)
                 out["counters"]["earlier_polls"] = out["counters"].get("earlier_polls", 0) + 1
                 if exc_t is None:
                     vs_t, _ = checker(el, feed_t, call, res_t, client)
                     for v in vs_t:
                         v["msg"] = "[earlier poll on the same client] " + v["msg"]
                     out["violations"] += vs_t[:5]
-        res, exc, client = harness.run_estimates(el, feed, call, client=client, want_client=True)
+        if polls >= 2 and inputs is None and live is not None:
+            for c in feed.columns:
+                live[c] = feed[c].to_numpy()
+            res, exc, client = harness.run_estimates(el, live, call, client=client, want_client=True, own_feed=True)
+        else:
+            res, exc, client = harness.run_estimates(el, feed, call, client=client, want_client=True)
     cm = harness.client_mod()
     if exc is not None:
         if isinstance(exc, cm.ModelNotEnoughSubunitsException):
